@@ -26,7 +26,10 @@ TRet == /\ IsEv("ret") /\ Ev.t \in invoked
         /\ UNCHANGED <<invoked, started, ended, arity>>
 TInfo == IsEv("info") /\ UNCHANGED <<invoked, started, ended, arity>>
 TEnd == IsEv("end") /\ (invoked # {} => started # 0 /\ ended) /\ UNCHANGED <<invoked, started, ended, arity>>
-TNext == TReset \/ TInvoke \/ TFStart \/ TFEnd \/ TRet \/ TInfo \/ TEnd
+\* a whole unsynchronised round of n simultaneous first callers, summarised: exactly one function started, and every caller
+\* returned that function's values
+TBurst == IsEv("burst") /\ Ev.starts = 1 /\ Ev.agree = Ev.n /\ UNCHANGED <<invoked, started, ended, arity>>
+TNext == TBurst \/ TReset \/ TInvoke \/ TFStart \/ TFEnd \/ TRet \/ TInfo \/ TEnd
 TSpec == TInit /\ [][TNext]_vars
 Track == TrackL(l)
 Accepted == AcceptedP
